@@ -37,7 +37,7 @@ fn kind_of_ttl(r: &Reply) -> &'static str {
     }
 }
 
-pub const NAMES: &[&str] = &["SET", "GET", "GETSET", "SETNX", "SETEX", "PSETEX", "MSET", "MGET", "APPEND", "STRLEN", "GETRANGE", "SETRANGE", "INCR", "DECR", "INCRBY", "DECRBY", "DEL", "EXISTS", "TYPE", "RENAME", "RENAMENX", "KEYS", "DBSIZE", "RANDOMKEY", "FLUSHDB", "FLUSHALL", "EXPIRE", "PEXPIRE", "PERSIST", "TTL", "PTTL"];
+pub const NAMES: &[&str] = &["SCAN", "SET", "GET", "GETSET", "SETNX", "SETEX", "PSETEX", "MSET", "MGET", "APPEND", "STRLEN", "GETRANGE", "SETRANGE", "INCR", "DECR", "INCRBY", "DECRBY", "DEL", "EXISTS", "TYPE", "RENAME", "RENAMENX", "KEYS", "DBSIZE", "RANDOMKEY", "FLUSHDB", "FLUSHALL", "EXPIRE", "PEXPIRE", "PERSIST", "TTL", "PTTL"];
 
 pub fn exec(w: &mut World, db: usize, name: &str, a: &[Bytes], reply: &Reply) -> Option<Res> {
     if !NAMES.contains(&name) {
@@ -396,6 +396,26 @@ fn inner(w: &mut World, db: usize, name: &str, a: &[Bytes], reply: &Reply) -> Re
             w.resolve_all(db);
             let ks: Vec<Bytes> = w.dbs[db].keys.keys().filter(|k| glob::glob_match(&a[1], k)).cloned().collect();
             chk_bag(reply, &ks)
+        }
+        "SCAN" => {
+            // only the single-call form that covers the whole key space is judged here
+            // (cursor 0, COUNT >= number of keys, no MATCH/TYPE); iteration is property C19
+            if a.len() != 4 || a[1] != b"0" || upper(&a[2]) != "COUNT" {
+                return (match reply {
+                    Reply::Frame(_) => Ok(()),
+                    _ => chk_err(reply),
+                });
+            }
+            w.resolve_all(db);
+            let n = parse_ll(&a[3]).unwrap_or(0);
+            let ks: Vec<Bytes> = w.dbs[db].keys.keys().cloned().collect();
+            if n < ks.len() as i64 || n <= 0 {
+                return (Ok(()));
+            }
+            match reply {
+                Reply::Frame(Frame::Array(v)) if v.len() == 2 && string_like(&v[0]) == Some(b"0") => chk_bag(&Reply::Frame(v[1].clone()), &ks),
+                _ => Err(mm("wrong-value", "[\"0\", all keys]", reply)),
+            }
         }
         "DBSIZE" => {
             if a.len() != 1 {
